@@ -10,9 +10,19 @@ its ceiling no later than one block before the deadline."
 
 Part A is generic in the float primitive `M` (hypothesis `Sound M f`: the
 starting rate is not above the ceiling and `p ↦ M delta p 1000` is
-non-negative and monotone below the width).  `Float.lean` proves `Sound` for
-the exact binary64 instance `goMulF64`, and `go_*` below are the resulting
-hypothesis-free statements about the arithmetic the code executes.
+non-negative and monotone below the width).  `Float.lean` proves the float
+part of `Sound` for the exact binary64 instance `goMulF64`; `go_*` below are the
+resulting statements about the arithmetic the code executes.
+
+Naming: the FULL property quantifies over all starting rates.  The code does not
+clamp a caller-supplied (or, in two corner cases, an estimated) starting rate to
+the ceiling, and for `start > end` monotonicity and the cap are FALSE on the
+code (`start_above_ceiling_breaks_cap_and_monotone`, known findings
+F-C18-start-above-ceiling / estimated variant).  Theorems that therefore carry
+the hypothesis `start ≤ end` are named `…_partial`; what is missing for the
+full statement is exactly that clamp in `NewLinearFeeFunction`.  The ceiling
+(`reaches_ceiling_by_deadline`), budget and transaction-shape theorems are
+proved at full strength with no such hypothesis.
 -/
 import LndModel.C18.Lemmas
 import LndModel.C18.Float
@@ -21,8 +31,13 @@ namespace LndModel.C18
 
 /-! ## A. fee function (any float primitive with the order properties) -/
 
-/-- `rate_monotone`: along ANY sequence of `Increment` / `IncreaseFeeRate(confTarget)` calls
-    (any conf targets: skipped heights, repeated, increasing, …) `FeeRate()` never decreases. -/
+/-- `rate_monotone` — FULL statement: for every fee function created by
+    `NewLinearFeeFunction` and every sequence of `Increment` / `IncreaseFeeRate(confTarget)`
+    calls, `FeeRate()` never decreases.  PROVED HERE (`_partial`): the same under `Sound M f`,
+    i.e. `f.start ≤ f.end_` plus the order properties of the float primitive (the latter are
+    discharged for Go's arithmetic in `go_rate_monotone_partial`).  Missing: `start ≤ end` is
+    not guaranteed by the code (see `start_above_ceiling_breaks_cap_and_monotone`).
+    Quantifies over ANY op sequence: skipped heights, repeated or increasing conf targets, … -/
 theorem rate_monotone_partial {M : MulDiv} {maxFeeRate relay : Int} {ct : Nat} {so est : Option Int} {f : FeeFn}
     (hnew : newLinear M maxFeeRate ct so est relay = .ok f) (hs : Sound M f)
     (ops : List Op) (op : Op) :
@@ -39,8 +54,9 @@ theorem rate_monotone_prefix_partial {M : MulDiv} {maxFeeRate relay : Int} {ct :
   rw [run_append]
   exact (Inv.run (Sound.of_same h1 hs) h2 more).2.2
 
-/-- `rate_capped`: the rate always lies between the starting rate and the ceiling, and the
-    ceiling is the `maxFeeRate` the function was created with. -/
+/-- `rate_capped` — FULL statement: `start ≤ FeeRate() ≤ end = maxFeeRate` in every reachable
+    state.  PROVED HERE (`_partial`): under `Sound M f` (contains `f.start ≤ f.end_`, without
+    which the initial rate `start` is above the ceiling on the code). -/
 theorem rate_capped_partial {M : MulDiv} {maxFeeRate relay : Int} {ct : Nat} {so est : Option Int} {f : FeeFn}
     (hnew : newLinear M maxFeeRate ct so est relay = .ok f) (hs : Sound M f) (ops : List Op) :
     f.start ≤ (f.run M ops).cur ∧ (f.run M ops).cur ≤ maxFeeRate := by
